@@ -103,3 +103,50 @@ package syntax
 //@     invariant forall a rune :: i <= a && a < 128 ==> !BitmapHas(bm, a)
 //@     invariant 0 <= bm.bits[0] && bm.bits[0] < 18446744073709551616 && 0 <= bm.bits[1] && bm.bits[1] < 18446744073709551616
 //@     decreases 128 - i
+
+//@ func (c CharSet) IsSingleton() (b bool)
+//@   props C16
+//@   ensures b == (!c.negate && len(c.categories) == 0 && len(c.ranges) == 1 && c.sub == nil && c.ranges[0].First == c.ranges[0].Last)
+//@   ensures[meaning] b ==> forall ch rune :: Member(c, ch) == (ch == c.ranges[0].First)
+//@ func (c CharSet) IsSingletonInverse() (b bool)
+//@   props C16
+//@   ensures b == (c.negate && len(c.categories) == 0 && len(c.ranges) == 1 && c.sub == nil && c.ranges[0].First == c.ranges[0].Last)
+//@   ensures[meaning] b ==> forall ch rune :: Member(c, ch) == (ch != c.ranges[0].First)
+//@ func (c CharSet) SingletonChar() (ch rune)
+//@   props C16
+//@   requires len(c.ranges) > 0
+//@   ensures ch == c.ranges[0].First
+
+// ---------------------------------------------------------------------------------------------
+// Boyer-Moore prefix (prefix.go): what "the prefix occurs at attempt position p" means
+// ---------------------------------------------------------------------------------------------
+//@ spec func BmCh(b *BmPrefix, ch rune) rune = ite(b.caseInsensitive, unicode.ToLower(ch), ch)
+//@ spec func PatAt(b *BmPrefix, text []rune, q int) bool = 0 <= q && q + len(b.pattern) <= len(text) && forall i int :: 0 <= i && i < len(b.pattern) ==> BmCh(b, text[q+i]) == b.pattern[i]
+//@ spec func BmAt(b *BmPrefix, text []rune, p int) bool = ite(b.rightToLeft, PatAt(b, text, p - len(b.pattern)), PatAt(b, text, p))
+
+//@ func (b *BmPrefix) matchPattern(text []rune, index int) (ok bool)
+//@   props C03 C15 C20
+//@   requires b != nil && 0 <= index
+//@   ensures ok == PatAt(b, text, index)
+//@   loop 0:
+//@     invariant 0 <= i && i <= len(b.pattern) && index + len(b.pattern) <= len(text) && b.caseInsensitive
+//@     invariant forall k int :: 0 <= k && k < i ==> BmCh(b, text[index+k]) == b.pattern[k]
+//@     decreases len(b.pattern) - i
+//@   loop 1:
+//@     invariant 0 <= i && i <= len(b.pattern) && index + len(b.pattern) <= len(text) && !b.caseInsensitive
+//@     invariant forall k int :: 0 <= k && k < i ==> BmCh(b, text[index+k]) == b.pattern[k]
+//@     decreases len(b.pattern) - i
+
+//@ func (b *BmPrefix) IsMatch(text []rune, index int, beglimit int, endlimit int) (ok bool)
+//@   props C03 C15
+//@   requires b != nil && beglimit == 0 && endlimit == len(text) && 0 <= index && index <= len(text)
+//@   ensures ok == BmAt(b, text, index)
+
+// Boyer-Moore scan: contract stated, body checked by the bounded stand-in only (table-driven skipping).
+//@ func (b *BmPrefix) Scan(text []rune, index int, beglimit int, endlimit int) (r int)
+//@   trusted Boyer-Moore skip tables; checked by bounded enumeration (see standins), not deductively
+//@   pure
+//@   requires b != nil && len(b.pattern) > 0 && beglimit == 0 && endlimit == len(text) && 0 <= index && index <= len(text)
+//@   ensures r == -1 || (0 <= r && r <= len(text) && BmAt(b, text, r))
+//@   ensures !b.rightToLeft ==> (r == -1 || index <= r) && forall p int :: index <= p && (r == -1 || p < r) ==> !BmAt(b, text, p)
+//@   ensures b.rightToLeft ==> (r == -1 || r <= index) && forall p int :: p <= index && (r == -1 || p > r) ==> !BmAt(b, text, p)
